@@ -2,6 +2,7 @@ import Driver.Common
 import Driver.C02
 import Driver.C05
 import Driver.C07
+import Driver.C01
 import Driver.C08
 import Driver.C16
 import Driver.C03
@@ -15,6 +16,7 @@ import Driver.C12
 import Driver.C13
 import Driver.C18
 import Driver.C11
+import Driver.C20
 
 open Fontc Fontc.Driver
 
@@ -22,6 +24,7 @@ open Fontc Fontc.Driver
 def handlers : List (String × Handler) :=
   ([] : List (String × Handler))
   |>.cons ("c07", C07.handle)
+  |>.cons ("c01", C01.handle)
   |>.cons ("c05sfnt", C05.handleSfnt)
   |>.cons ("c05font", C05.handleFont)
   |>.cons ("c03e2e", C03.handle)
@@ -32,6 +35,7 @@ def handlers : List (String × Handler) :=
   |>.cons ("c16", C16.handle)
   |>.cons ("c08", C08.handle)
   |>.cons ("c08mal", C08.handle)
+  |>.cons ("c08e2e", C08.handleE2E)
   |>.cons ("c17", C17.handle)
   |>.cons ("c17x", C17.handleX)
   |>.cons ("c02", C02.handle)
@@ -47,6 +51,7 @@ def handlers : List (String × Handler) :=
   |>.cons ("c18", C18.handle) |>.cons ("c18e2e", C18.handleE2E)
   |>.cons ("c11", C11.handle)
   |>.cons ("c11x", C11.handle)
+  |>.cons ("c20plist", C20.handlePlist) |>.cons ("c20args", C20.handleArgs) |>.cons ("c20e2e", C20.handleE2E)
 
 def processLine (line : String) : String :=
   match Sexp.parse line with
